@@ -115,6 +115,16 @@ def subst_term(term, env):
         return term
     if term[0] == "sym" and len(term) == 2 and term[1] in env:
         return ("const", env[term[1]])
+    if term[0] == "sym" and len(term) == 4 and term[1] in env:
+        return ("const", env[term[1]])
+    if term[0] == "atom" and len(term) >= 3 and term[1] == "opqint" and isinstance(term[2], tuple) and term[2][:2] == ("atom", "bv"):
+        v = _bv_value(term[2][2], env)
+        if v is not None:
+            return ("const", v)
+    if term[:2] == ("atom", "bv") and len(term) == 3:
+        v = _bv_value(term[2], env)
+        if v is not None:
+            return ("const", v)
     if term[0] == "lin" and len(term) == 3 and isinstance(term[1], tuple):
         tot = term[2]
         rest = []
@@ -128,6 +138,37 @@ def subst_term(term, env):
             return ("const", tot)
         return ("lin", tuple(rest), tot)
     return tuple(subst_term(x, env) for x in term)
+
+
+def _bv_value(cells, env):
+    """value of a bit pattern (most significant cell first) whose cells are constants, bits of
+    ('sym', name, ..) atoms bound in env, and not / and / or / xor of such; None if a cell is not"""
+    def bit(c):
+        if c in (0, 1):
+            return c
+        if not isinstance(c, tuple):
+            raise ValueError
+        if isinstance(c[0], tuple):
+            a, i = c
+            if a and a[0] == "sym" and a[1] in env and isinstance(i, int):
+                return (env[a[1]] >> i) & 1
+            raise ValueError
+        if c[0] == "not":
+            return 1 - bit(c[1])
+        if c[0] == "BitAnd":
+            return bit(c[1]) & bit(c[2])
+        if c[0] == "BitOr":
+            return bit(c[1]) | bit(c[2])
+        if c[0] == "BitXor":
+            return bit(c[1]) ^ bit(c[2])
+        raise ValueError
+    try:
+        v = 0
+        for c in cells:
+            v = (v << 1) | bit(c)
+        return v
+    except (ValueError, TypeError, IndexError):
+        return None
 
 
 def pointwise(rows, limit=1024):
